@@ -48,7 +48,7 @@ pub fn judge(seq: &[usize]) -> Eval {
         }
     }
     let mut tags = vec![];
-    if seq.windows(2).any(|w| (w[0] == 3 && w[1] == 4) || (w[0] == 7 && w[1] == 8) || (w[0] == 10 && w[1] == 8)) {
+    if seq.windows(2).any(|w| (w[0] == 3 && w[1] == 4) || (w[0] == 7 && w[1] == 8) || (w[0] == 10 && w[1] == 8) || (w[0] == 15 && w[1] == 4)) {
         tags.push("early-packet-defines-template-a-later-one-needs");
     }
     Eval { key: h64(&base) | 1, transitions, issues, tags }
@@ -57,11 +57,11 @@ pub fn judge(seq: &[usize]) -> Eval {
 pub fn spaces(tier: &str) -> Vec<Box<dyn Space>> {
     let thorough = tier == "thorough";
     let mut v: Vec<Box<dyn Space>> = vec![];
-    let maxlen = if thorough { 6 } else { 5 };
+    let maxlen = 5;
     let m = menu::SELF_DELIMITING;
     let nl = list_count(m, maxlen);
     v.push(space(
-        &format!("all-sequences<={}-over-14-packet-menu x all-partitions", maxlen),
+        &format!("all-sequences<={}-over-17-packet-menu x all-partitions", maxlen),
         nl,
         move |i| judge(&list_at(m, maxlen, i)),
         move |i| {
@@ -69,6 +69,17 @@ pub fn spaces(tier: &str) -> Vec<Box<dyn Space>> {
             json!({"sequence": s.iter().map(|k| menu::NAMES[*k]).collect::<Vec<_>>(), "packets": s.iter().enumerate().map(|(pos,k)| hex(&menu::packet(*k, pos*13+1))).collect::<Vec<_>>(), "partitions": "all 2^(n-1)"})
         },
     ));
+    if thorough {
+        // length 6 over a 10-packet sub-menu
+        const SUB: [usize; 10] = [0, 2, 3, 4, 6, 7, 8, 10, 12, 15];
+        let nl6 = 10u64.pow(6);
+        v.push(space(
+            "all-sequences-of-6-over-10-packet-sub-menu x all-partitions",
+            nl6,
+            move |i| judge(&digits(i, &[10; 6]).into_iter().map(|d| SUB[d as usize]).collect::<Vec<_>>()),
+            move |i| json!({"sequence": digits(i, &[10; 6]).into_iter().map(|d| menu::NAMES[SUB[d as usize]]).collect::<Vec<_>>(), "partitions": "all 32"}),
+        ));
+    }
     // maximal homogeneous and mixed chains: all-in-one vs one-per-call
     let kinds: Vec<(usize, usize)> = vec![(0, 2730), (7, 2340), (9, 1190), (3, 1630), (1, 540), (100, 1400)];
     v.push(space(
@@ -118,8 +129,8 @@ pub fn run(tier: &str) -> i32 {
         prop: "C11".into(),
         tier: tier.into(),
         level: "model_checking",
-        rule: "every sequence of 1..=5 (thorough 6) packets over the 14-packet self-delimiting menu (V5x0, V5x2, V7x1, V9-T, V9-D, V9-TD, V9-OT+OD, IPFIX-T, IPFIX-D, IPFIX-TD, IPFIX-T', IPFIX-D(absent id), IPFIX header only, V9 count 0), each under ALL 2^(n-1) partitions into consecutive calls on a fresh parser; sequences whose one-per-call run contains an error element are outside the domain (tagged, not judged); plus maximal chains up to the datagram limit (all-in-one vs one-per-call). Oracle: canonical dump of the concatenated results and final cache snapshot identical to one-packet-per-call delivery. A sequence is distinct by the hash of its one-per-call result".into(),
-        bounds: json!({"sequence_len": if thorough {6} else {5}, "menu": menu::NAMES[..menu::SELF_DELIMITING].to_vec(), "partitions": "all"}),
+        rule: "every sequence of 1..=5 packets (thorough: also every sequence of 6 over a 10-packet sub-menu) over the 17-packet self-delimiting menu (V5x0, V5x2, V7x1, V9-T, V9-D, V9-TD, V9-OT+OD, IPFIX-T, IPFIX-D, IPFIX-TD, IPFIX-T', IPFIX-D(absent id), IPFIX header only, V9 count 0, V7x0, V9 and IPFIX data-then-redefinition), each under ALL 2^(n-1) partitions into consecutive calls on a fresh parser; sequences whose one-per-call run contains an error element are outside the domain (tagged, not judged); plus maximal chains up to the datagram limit (all-in-one vs one-per-call). Oracle: canonical dump of the concatenated results and final cache snapshot identical to one-packet-per-call delivery. A sequence is distinct by the hash of its one-per-call result".into(),
+        bounds: json!({"sequence_len": if thorough {"5 over 17 packets + 6 over 10 packets"} else {"5 over 17 packets"}, "menu": menu::NAMES[..menu::SELF_DELIMITING].to_vec(), "partitions": "all"}),
         assumptions: vec![],
         trusted_base: vec!["c11::judge".into()],
         required_tags: vec!["early-packet-defines-template-a-later-one-needs", "out-of-domain:one-per-call-run-has-an-error"],
